@@ -1,6 +1,6 @@
 (** C14: the network container stays consistent under any history of edits. *)
 From Coq Require Import List Arith Bool ZArith Lia Permutation String.
-From Naunet Require Import Lib.ListX Model.Dup Model.Network Proofs.DupProofs.
+From Naunet Require Import Lib.ListX Model.Dup Model.Network Proofs.DupProofs Proofs.SpeciesProofs.
 Import ListNotations.
 
 Lemma memb_nat_in x l : memb Nat.eqb x l = true <-> In x l.
@@ -305,4 +305,97 @@ Proof.
   { apply Forall_forall. intros x Hx. apply incl_remove_idxs in Hx. rewrite Forall_forall in Hk. auto. }
   destruct (default_on_known_thm _ Hk') as [-> _].
   apply (remove_roundtrip_lemma rxn_eqb_strict Hr Hs Ht).
+Qed.
+
+(** ** the append steps of the `naunet extend` command (append_by): for every species of the network AS IT IS NOW
+    that has a counterpart, one reaction species -> counterpart is added; nothing else changes *)
+Lemma add_reaction_rl s r x : In x (rl (add_reaction s r)) -> In x (rl s) \/ x = r.
+Proof.
+  unfold add_reaction. destruct (allowed_ok (allowed s) r); simpl; auto.
+  rewrite in_app_iff. simpl. intuition.
+Qed.
+Lemma add_reaction_keeps s r x : In x (rl s) -> In x (rl (add_reaction s r)).
+Proof. unfold add_reaction. destruct (allowed_ok (allowed s) r); simpl; auto. rewrite in_app_iff. auto. Qed.
+
+Section Append.
+Variable f : nat -> option nat.
+Variable ty : Z.
+Let stepf := fun acc x => match f x with Some y => add_reaction acc (mk_simple 0 [x] [y] ty) | None => acc end.
+
+Lemma append_fold_inv l : forall s, Inv s -> Inv (fold_left stepf l s).
+Proof.
+  induction l as [|x l IH]; intros s H; simpl; auto. apply IH. unfold stepf. destruct (f x); auto. apply inv_add; auto.
+Qed.
+Lemma append_fold_rl l : forall s r, In r (rl (fold_left stepf l s)) ->
+  In r (rl s) \/ exists x y, In x l /\ f x = Some y /\ r = mk_simple 0 [x] [y] ty.
+Proof.
+  induction l as [|x l IH]; intros s r H; simpl in H; auto.
+  apply IH in H. destruct H as [H|(x' & y & Hx & Hf & ->)].
+  - unfold stepf in H. destruct (f x) as [y|] eqn:Hf; auto.
+    apply add_reaction_rl in H. destruct H as [H| ->]; auto.
+    right. exists x, y. simpl; auto.
+  - right. exists x', y. simpl; auto.
+Qed.
+Lemma append_fold_keeps l : forall s r, In r (rl s) -> In r (rl (fold_left stepf l s)).
+Proof.
+  induction l as [|x l IH]; intros s r H; simpl; auto. apply IH. unfold stepf. destruct (f x); auto.
+  apply add_reaction_keeps; auto.
+Qed.
+
+Theorem append_by_inv_lemma s : Inv s -> Inv (append_by f ty s).
+Proof. intro H. unfold append_by. apply append_fold_inv. exact H. Qed.
+
+(* every reaction of the result was held before or is  x -> f x  for a species x of a reaction held before *)
+Theorem append_by_spec_lemma s r : Inv s -> In r (rl (append_by f ty s)) ->
+  In r (rl s) \/
+  exists x y, f x = Some y /\ r = mk_simple 0 [x] [y] ty /\
+              exists r0, In r0 (rl s) /\ (In x (rx_reac r0) \/ In x (rx_prod r0)).
+Proof.
+  intros HI H. unfold append_by in H. apply append_fold_rl in H.
+  destruct H as [H|(x & y & Hx & Hf & ->)]; auto.
+  right. exists x, y. repeat split; auto.
+  apply (proj1 (SpeciesProofs.isort_in Nat.leb _ x)) in Hx. apply set_union_in in Hx.
+  destruct Hx as [Hx|Hx].
+  - apply (inv_reac s HI) in Hx. destruct Hx as (r0 & Hr0 & Hx). exists r0. auto.
+  - apply (inv_prod s HI) in Hx. destruct Hx as (r0 & Hr0 & Hx). exists r0. auto.
+Qed.
+Theorem append_by_keeps_lemma s r : In r (rl s) -> In r (rl (append_by f ty s)).
+Proof. intro H. unfold append_by. apply append_fold_keeps. exact H. Qed.
+End Append.
+
+Lemma reduce_by_inv al s : Inv (reduce_by al s).
+Proof. unfold reduce_by. apply fold_add_inv, inv_empty. Qed.
+
+Lemma fold_add_rl_unrestricted l : forall s, allowed s = [] -> rl (fold_left add_reaction l s) = (rl s ++ l)%list.
+Proof.
+  induction l as [|r l IH]; intros s Ha; simpl. rewrite app_nil_r; reflexivity.
+  assert (Hs : add_reaction s r = {| rl := rl s ++ [r]; skipped := skipped s; reactants := set_union (reactants s) (rx_reac r);
+                                     products := set_union (products s) (rx_prod r); allowed := allowed s; required := required s |}).
+  { unfold add_reaction, allowed_ok. rewrite Ha. reflexivity. }
+  rewrite IH; rewrite Hs; simpl; auto. rewrite <- app_assoc. reflexivity.
+Qed.
+
+(* reduce-by-species keeps exactly the reactions all of whose species are listed, in order *)
+Lemma reduce_by_rl al s :
+  rl (reduce_by al s) = filter (fun r => forallb (fun x => memb Nat.eqb x al) (rx_reac r ++ rx_prod r)) (rl s).
+Proof. unfold reduce_by. rewrite fold_add_rl_unrestricted; reflexivity. Qed.
+
+Lemma remove_species_inv xs s : Inv s -> Inv (remove_species xs s).
+Proof. intro H. unfold remove_species. apply inv_rebuild; auto. apply incl_remove_idxs. Qed.
+
+Theorem extend_inv_lemma reduce remove dups appends l : Inv (extend reduce remove dups appends l).
+Proof.
+  unfold extend.
+  set (s0 := fold_left add_reaction l (empty_net [] [])).
+  assert (H0 : Inv s0) by (apply fold_add_inv, inv_empty).
+  set (s1 := match reduce with Some al => reduce_by al s0 | None => s0 end).
+  assert (H1 : Inv s1) by (unfold s1; destruct reduce; [apply reduce_by_inv | exact H0]).
+  set (s2 := match remove with [] => s1 | _ => remove_species remove s1 end).
+  assert (H2 : Inv s2) by (unfold s2; destruct remove; [exact H1 | apply remove_species_inv; exact H1]).
+  set (s3 := if dups then step s2 RemoveDups else s2).
+  assert (H3 : Inv s3) by (unfold s3; destruct dups; [apply inv_step; exact H2 | exact H2]).
+  apply inv_step.
+  assert (G : forall ps s, Inv s -> Inv (fold_left (fun s p => append_by (fst p) (snd p) s) ps s)).
+  { induction ps as [|p ps IH]; intros s Hs; simpl; auto. apply IH. apply append_by_inv_lemma. exact Hs. }
+  apply G. exact H3.
 Qed.
